@@ -294,6 +294,7 @@ const TERM_FIELDS: [&str; 10] = [
 
 fn term_fail(e: String) -> Vec<String> {
     let mut v: Vec<String> = TERM_FIELDS.iter().map(|f| format!("{f}=-")).collect();
+    v.push("held_finish=-".to_string());
     v.push(format!("err={e}"));
     v
 }
@@ -474,6 +475,7 @@ async fn term(a: &[String]) -> Vec<String> {
     }
 
     let mut v: Vec<String> = vec!["-".to_string(); 9];
+    let mut held_finish = "-".to_string();
     if !dropped_all {
         let conn = conn.take().expect("still held");
         if waiters.is_none() {
@@ -527,14 +529,24 @@ async fn term(a: &[String]) -> Vec<String> {
                         Some(Ok(_)) => "ok".into(),
                         Some(Err(e)) => canon::write_err(&e),
                     };
+                    // every later call ends with an error, a repeated one too
+                    let mut fins = vec![];
+                    for _ in 0..2 {
+                        fins.push(match bounded(h.bi.0.finish()).await {
+                            None => "timeout".to_string(),
+                            Some(Ok(())) => "ok".into(),
+                            Some(Err(e)) => canon::write_err(&e),
+                        });
+                    }
                     drop(h);
-                    (rd, wr)
+                    (rd, wr, fins.join(","))
                 })
                 .await;
             match r {
-                Ok((rd, wr)) => {
+                Ok((rd, wr, fi)) => {
                     v[7] = rd;
                     v[8] = wr;
+                    held_finish = fi;
                 }
                 Err(t) => {
                     v[7] = t.clone();
@@ -555,6 +567,7 @@ async fn term(a: &[String]) -> Vec<String> {
         .zip(v.iter())
         .map(|(f, x)| format!("{f}={x}"))
         .collect();
+    obs.push(format!("held_finish={held_finish}"));
     if !errs.is_empty() {
         obs.push(format!("err={}", errs.join(",")));
     }
